@@ -11,12 +11,16 @@ from harness.impl import c01cascade as I
 
 IMPORTS = ("From Coq Require Import String.\nFrom Ford Require Import Base.Str Base.StrX Sem.Tree Sem.TypeSpec Sem.DeclSpec "
            "Sem.CascadeTypes Sem.Cascade Sem.CascadeSpec Corr.C01 Corr.C01cascade.")
-THEOREMS = []
+THEOREMS = ["C01_cascade_tables", "C01_dispatch", "C01_dispatch_examples", "C01_dispatch_refuted_all_spellings",
+            "C01_dispatch_witness_final", "C01_dispatch_witness_end_blockdata", "C01_dispatch_witness_labelled_end",
+            "C01_assignment_refuted_interface"]
 PROPS_FILE = "theories/Props/C01cascade.v"
-BUILD_TARGETS = ["theories/Corr/C01cascade.vo"]
+BUILD_TARGETS = ["theories/Corr/C01cascade.vo", "theories/Props/C01cascade.vo"]
 TRANSLATORS = ["t_c01_cascade.py"]
 UNMODELLED, MALFORMED = 1000, 2000
 PROBE_T = "probe"
+# spellings FORD is known to treat differently (CascadeSpec.known_region)
+REGIONS = {3: "final-without-double-colon", 4: "end-blockdata-spelling", 5: "labelled-end-statement"}
 
 KINDS = list(I.PROLOGUE)
 
@@ -246,6 +250,9 @@ def run_slines(chk, P, n, stats, explore=False):
         region, bits = code // 4, code % 4
         if code != MALFORMED and bits == 0:
             continue
+        if code != MALFORMED and region in REGIONS and bits == 2 and chk.known(REGIONS[region], True):
+            stats["known_spellings"] = stats.get("known_spellings", 0) + 1
+            continue
         if code != MALFORMED and region == 9:
             # outside the side conditions of the dispatch theorem (wrong place, keyword-like names):
             # deviations are expected there; model and FORD must still agree
@@ -268,24 +275,42 @@ def run_slines(chk, P, n, stats, explore=False):
                 chk.violation("failing-input" if bits & 2 else "broken-correspondence", payload, bool(bits & 2))
 
 
+def witnesses(chk, P):
+    """open findings replayed on the running code (KNOWN-FINDING lines)"""
+    o = P.probe("KType", True, 0, "final f1")
+    chk.known("final-without-double-colon", not any(t == "LFinal" for t, _ in o["created"]))
+    o = P.probe("KBlockData", False, 0, "end blockdata bd")
+    chk.known("end-blockdata-spelling", o["branch"] != "END_RE")
+    o = P.probe("KSubroutine", False, 0, "99 end subroutine sub")
+    chk.known("labelled-end-statement", o["branch"] != "END_RE")
+    o = P.probe("KSubroutine", False, 0, "interface = 3")
+    chk.known("interface-named-variable-assignment", o["branch"] == "INTERFACE_RE")
+    o = P.probe("KModule", False, 0, "program p")
+    chk.known("program-statement-inside-unit", (o["raised_in_dispatch"] or "").startswith("AttributeError"))
+    for _ in range(5):
+        chk.count(("witness", _), sample=None)
+
+
 def run_part(chk, explore=False):
+    """everything except chk.translate / chk.build / chk.props"""
     rng = chk.rng
     quick = chk.tier == "quick"
     P = I.Prober()
     stats = {"probes": 0, "sprobes": 0, "unmodelled": 0, "branches": {}, "forms": {}}
     try:
-        run_slines(chk, P, 400 if quick else 8000, stats, explore)
+        witnesses(chk, P)
+        run_slines(chk, P, 260 if quick else 8000, stats, explore)
         items = []
+        fixed = [("KModule", False, 0), ("KType", True, 0), ("KInterface", False, 0), ("KFile", False, 0)]
         for line in CORPUS:
-            for ctx in [("KModule", False, 0), ("KType", True, 0), ("KInterface", False, 0), ("KFile", False, 0)] \
-                    + contexts(rng, 1):
+            for ctx in (rng.sample(fixed, 1) if quick else fixed) + contexts(rng, 1):
                 items.append((ctx, line, None, 0))
-        for term, line in ftree_lines(rng, 6 if quick else 150):
-            for ctx in natural_contexts(term)[:2] + contexts(rng, 1):
+        for term, line in ftree_lines(rng, 4 if quick else 150):
+            for ctx in natural_contexts(term)[:1 if quick else 2] + contexts(rng, 1):
                 items.append((ctx, line, None, 0))
             if rng.random() < 0.5:
                 items.append((rng.choice(natural_contexts(term)), mutate(rng, line), None, 0))
-        for _ in range(200 if quick else 6000):
+        for _ in range(120 if quick else 6000):
             line = rng.choice(CORPUS)
             for _ in range(rng.choice([1, 1, 2])):
                 line = mutate(rng, line)
@@ -303,8 +328,6 @@ def run_part(chk, explore=False):
                       sample={"ctx": ctx, "line": line, "ford": o["branch"]} if idx < 2 else None)
             if code == UNMODELLED:
                 stats["unmodelled"] += 1
-                if explore:
-                    print("UNMOD", ctx, repr(line), o["branch"], o["created"])
                 continue
             if code:
                 payload = {"what": "statement classification of one logical line", "code": code, "ctx": ctx, "line": line,
@@ -318,4 +341,23 @@ def run_part(chk, explore=False):
 
 
 def replay_part(chk, rep):
-    return None
+    """replay of a violation recorded by run_part; None when the replay file is not one of this part's"""
+    if "line" not in rep or "ctx" not in rep:
+        return None
+    P = I.Prober()
+    try:
+        ctx = tuple(rep["ctx"])
+        o = P.probe(ctx[0], ctx[1], ctx[2], rep["line"])
+        print("ford:", json.dumps({k: o[k] for k in ("branch", "created", "ifaces", "raised_in_dispatch", "container")}))
+        if "sline" in rep:
+            term = (f"({ctx[0]}, {coq_bool(ctx[1])}, {coq_bool(ctx[2] == 0)}, ({rep['sline']}), {coq_str(rep['line'])}, "
+                    f"{obs_term(o)})")
+            res = chk.coq_judge(IMPORTS, "sprobe", "judge_sline", [term])
+        else:
+            res = chk.coq_judge(IMPORTS, PROBE_T, "judge_line", [probe_term(ctx, rep["line"], o)])
+        print("judge code (bit0 model != FORD, bit1 FORD != statement, region*4; 1000 outside the model):", res)
+        model = chk.coq_eval(IMPORTS, f"classify (mkctx {ctx[0]} {coq_bool(ctx[1])} {coq_bool(ctx[2] == 0)}) {coq_str(rep['line'])}")
+        print("model:", model[:600])
+        return 1 if res and any(c != UNMODELLED for c in res.values()) else 0
+    finally:
+        P.close()
